@@ -346,12 +346,60 @@ def rule_percentile(ctx):
         ctx.holds('R5', 'percentile carries a.attrs')
 
 
+def rule_scalar_dispatch(ctx):
+    """R9: whether a reduction result is handed back as a bare scalar (axis=None) or as a labelled array is a question of its
+    *dimensionality*; a size test (np.size(result) == 1) also matches the 1-element arrays of a size-1 remaining dimension and
+    strips their axes ("every shape with sizes 1-4, so that single-element and single-slice results occur")."""
+    import ast
+    ctx.rule('R9', 'scalar-vs-array dispatch of reduction results uses dimensionality, never size == 1', 1)
+    sites = 0
+    for q in (TR + 'apply_along_axis', TR + '_median_with_nan', 'dimarray.lib.stats.percentile', TR + '_MaskedArrayFunc.__call__', TR + '_NumpyDesc.__get__'):
+        fi = ctx.P.functions.get(q)
+        if fi is None:
+            continue
+        results = set()
+        for n in ast.walk(fi.node):
+            if isinstance(n, ast.Assign) and isinstance(n.value, ast.Call):
+                for t in n.targets:
+                    if isinstance(t, ast.Name):
+                        results.add(t.id)
+        for n in ast.walk(fi.node):
+            if not isinstance(n, (ast.If, ast.IfExp)):
+                continue
+            for c in ast.walk(n.test):
+                if isinstance(c, ast.Compare) and len(c.ops) == 1 and isinstance(c.ops[0], ast.Eq):
+                    sides = [c.left, c.comparators[0]]
+                    one = [x for x in sides if isinstance(x, ast.Constant) and x.value == 1 and not isinstance(x.value, bool)]
+                    sized = None
+                    for x in sides:
+                        if isinstance(x, ast.Call) and ast.unparse(x.func) in ('np.size', 'numpy.size', 'len') and x.args and isinstance(x.args[0], ast.Name):
+                            sized = x.args[0].id
+                        if isinstance(x, ast.Attribute) and x.attr == 'size' and isinstance(x.value, ast.Name):
+                            sized = x.value.id
+                    if one and sized in results:
+                        ctx.violated('R9', fi, 'size test on `%s`' % sized, '`%s` decides between a bare scalar and an array result by size: a 1-element array (the remaining '
+                                     'dimension has size 1) is treated like the axis=None scalar and loses its axes' % ast.unparse(c), node=n)
+                elif isinstance(c, ast.Call) and ast.unparse(c.func) in ('np.isscalar', 'isscalar', 'np.ndim', 'numpy.ndim'):
+                    sites += 1
+                elif isinstance(c, ast.Attribute) and c.attr == 'ndim':
+                    sites += 1
+    ctx.holds('R9', '%d dimensionality tests (np.isscalar / np.ndim / .ndim) on reduction results, no size == 1 dispatch' % sites)
+    if sites < 2:
+        ctx.undecide('R9', 'expected at least 2 dimensionality tests on the reduction path (apply_along_axis, percentile), found %d' % sites)
+
+
 def check(ctx):
     rule_axis_info(ctx)
     rule_deal_with_axis(ctx)
     rule_apply(ctx)
     rule_nan_policy(ctx)
     rule_percentile(ctx)
-    ctx.not_decided += ['numerical equality with NumPy', 'all-NaN slices under nan* functions', 'size-1 results (np.median returns a scalar)']
+    rule_scalar_dispatch(ctx)
+    # a tuple of dimensions is grouped by flatten(dims, insert=0) before the function is applied: flatten's order / splice / progress rules (C11)
+    from . import c11
+    from ..report import Renamed
+    ctx.rule('R8', 'flatten (grouping of a tuple of dimensions): contiguity guard, shared insertion point, C-order reshape', 2)
+    c11.rule_flatten(Renamed(ctx, {'*': 'R8'}))
+    ctx.not_decided += ['numerical equality with NumPy', 'all-NaN slices under nan* functions']
     ctx.trusted += ['NumPy reduction semantics along axis=', 'numpy.ma masks are honoured by np.ma.<func>']
     return EXPLANATION
